@@ -8,8 +8,9 @@ def TOTAL_REWARD : Int := 400000000000000
 def getRewardAge (pool : Pool) : TxM Nat := do
   if !pool.totalRewardIsSao then throw "invalid coin denominations"
   let remain := TOTAL_REWARD - pool.totalReward
-  if remain < 0 then throw "negative coin amount"
-  if remain = 0 then throw "division by zero"
+  -- nothing left to emit (only a genesis can say so): the age is beyond every halving, the subsidy
+  -- shifts to zero (the `fix:` of F21; before it Coin.Sub / Int.Quo panicked in the begin-blocker)
+  if remain ≤ 0 then return 256
   let q := Int.tdiv TOTAL_REWARD remain
   -- uint(math.Log2(float64(q))): q = 0 gives -Inf -> uint conversion is platform-defined; q ≥ 1 when remain ≤ total
   if q ≤ 0 then throw "log2 of zero"
